@@ -145,6 +145,17 @@ def expected_root(ac, name, side, cache):
 
 def geometry_oracle(chk, ac, a):
     """nodes / control points lie on the documented curve; section quantities equal the interpolated inputs"""
+    # the two halves of a two-sided segment carry mirror-image section angles: dihedral_left = -dihedral_right station by station
+    # (whatever way the description was given - also quarter-chord points, where the angle is derived from the curve), twist equal
+    by_name = {seg.name: seg for seg in a.segments}
+    for nm, seg in by_name.items():
+        if nm.endswith("_left") and nm[:-5] + "_right" in by_name:
+            rt = by_name[nm[:-5] + "_right"]
+            if seg.N == rt.N and abs(getattr(seg, "y_offset", 0.0)) == abs(getattr(rt, "y_offset", 0.0)):
+                if not np.allclose(np.array(seg.dihedral_cp)[::-1], -np.array(rt.dihedral_cp), rtol=0, atol=1e-9):
+                    return "mirror-angles:dihedral", dict(segment=nm, left=np.array(seg.dihedral_cp).tolist(), right=np.array(rt.dihedral_cp).tolist())
+                if not np.allclose(np.array(seg.twist_cp)[::-1], np.array(rt.twist_cp), rtol=0, atol=1e-9):
+                    return "mirror-angles:twist", dict(segment=nm, left=np.array(seg.twist_cp).tolist(), right=np.array(rt.twist_cp).tolist())
     for seg in a.segments:
         name = seg.name.rsplit("_", 1)[0]
         w = ac["wings"][name]
@@ -276,6 +287,11 @@ def run(chk):
                     and np.allclose(dd["dihedral"], seg.dihedral_cp) and np.allclose(dd["sweep"], seg.sweep_cp)
                     and np.allclose(np.array([dd["cpx"], dd["cpy"], dd["cpz"]]).T, seg.control_points)):
                 chk.violation("distributions-geometry", dict(kind="geometry", aircraft=ac, segment=seg.name))
+            # "chord" is the section's geometric chord (mean of its node chords, already checked against the description above);
+            # "swept_chord" is not larger (it is the chord seen normal to the swept lifting line)
+            if not np.allclose(dd["chord"], seg.c_bar_cp, rtol=1e-9, atol=1e-12) or np.any(np.array(dd["swept_chord"]) > np.array(dd["chord"]) * (1 + 1e-12)):
+                chk.violation("distributions-chord", dict(kind="geometry", aircraft=ac, segment=seg.name, reported=dd["chord"], swept=dd["swept_chord"],
+                                                          mean_of_node_chords=np.array(seg.c_bar_cp).tolist()))
         S, lon, lat = sc.get_aircraft_reference_geometry()
         if not (math.isfinite(S) and math.isfinite(lon) and math.isfinite(lat) and S > 0 and lon > 0 and lat > 0):
             chk.violation("reference-not-finite", dict(kind="geometry", aircraft=ac, S=S, lon=lon, lat=lat))
